@@ -4,7 +4,7 @@ from pyvc.contract import contract
 contract("C13.get_schema_namespace",
          file="hed/models/hed_tag.py", func="HedTag._get_schema_namespace",
          params={"org_tag": "Str"}, returns="Str", enc="array",
-         also=["C03"],      # C03: a tag without prefix must be resolved as a whole (a ':' after the first '/' is part of the value)
+         also=["C03", "C02"],  # C02: parsing is total - the prefix is cut without raising for any text (two colons, no slash ...);      # C03: a tag without prefix must be resolved as a whole (a ':' after the first '/' is part of the value)
          ensures={
              # from the property: the namespace is the text up to and including the first ':' when that colon
              # comes before any '/', otherwise it is empty; it is always a prefix of the tag text
@@ -22,6 +22,7 @@ class_model("HedSchemaGroup", {"_schemas": "Map[Str,HedSchema]", "valid_prefixes
 # C13: a prefix must be alphabetic; ':' is appended when missing
 contract("C13.set_schema_prefix", file="hed/schema/hed_schema.py", func="HedSchema.set_schema_prefix",
          params={"self": "HedSchemaNS", "schema_namespace": "Str"}, returns=None, enc="array", self_class="HedSchemaNS",
+         also=["C03"],      # C03: a prefix written with capitals must be stored as written, or no prefixed spelling resolves
          modifies=["self._namespace"],
          lets={"body": "schema_namespace[:-1] if (len(schema_namespace) > 0 and schema_namespace[len(schema_namespace) - 1] == ':') else schema_namespace"},
          raises={"HedFileError": "len(schema_namespace) > 0 and not (len(body) > 0 and all(body[k].isalpha() for k in range(len(body))))"},
